@@ -191,8 +191,8 @@ impl DmlExecutor {
             if let SearchResult::Found(position) = search_result {
                 let existing = btree.get_tuple_at_unchecked(position, &schema)?;
 
-                // If it is deleted we need to un-delete it
-                if existing.is_deleted() {
+                // If it is deleted, or was left behind by a transaction that aborted, it is replaced
+                if existing.is_deleted() || self.written_by_aborted(&existing, &snapshot) {
                     btree.update(root, tuple, &schema)?;
                 };
 
@@ -410,6 +410,13 @@ impl DmlExecutor {
         Ok(DeleteResult { deleted: true })
     }
 
+    /// Was [tuple] written by a transaction that has aborted? (See [Self::mark_deleted] for why page zero is asked too.)
+    fn written_by_aborted(&self, tuple: &Tuple, snapshot: &crate::runtime::Snapshot) -> bool {
+        let xmin = tuple.xmin();
+        snapshot.is_transaction_aborted(xmin)
+            || self.ctx.pager().read().is_transaction_aborted(xmin)
+    }
+
     /// Marks [tuple] as deleted by this transaction. A mark left by a transaction that has aborted
     /// does not count (the tuple is visible to us) and is replaced. The snapshot only knows who had
     /// aborted when it was taken; page zero knows who has by now.
@@ -542,8 +549,8 @@ impl DmlExecutor {
                         let existing =
                             index_btree.get_tuple_at_unchecked(position, &index_schema)?;
 
-                        // If it is deleted we need to un-delete it
-                        if existing.is_deleted() {
+                        // If it is deleted, or was left behind by a transaction that aborted, it is replaced
+                        if existing.is_deleted() || self.written_by_aborted(&existing, &snapshot) {
                             index_btree.update(index_root, index_tuple, index_schema)?;
                         };
 
